@@ -1,5 +1,7 @@
 import QuickAdd.Lemmas.SearchSound
 import QuickAdd.Lemmas.SearchComplete
+import QuickAdd.Lemmas.ExpandSound
+import QuickAdd.Lemmas.ExpandRespects
 import QuickAdd.Props.C18
 /-!
 # C15 — the search yields only what the rules license (soundness), for every ordering policy
@@ -14,16 +16,19 @@ and the trace grows by exactly that rule's name.
 `args_unchanged`: a rule application returns new values; the argument list of the model is immutable, so "applying a
 rule never alters the values it was applied to" is checked where it can fail — on the real code, by argument snapshots
 around every rule call (`rules` correspondence and the sweep).
-`search_complete_partial`: **completeness of the concrete loop** — without depth limit and deadline, if the search ends
-without exception then every value of every reachable production that no rule reduces further compares equal (Python `==`)
-to a streamed candidate, for **every scorer** (ordering, both dedup tables and the emission gate are score dependent; the
-proof is an invariant over the worklist: successors of closed elements and table keys are value-equal to something open or
-closed).  It is named *partial* because it keeps one hypothesis about the rule base that is not proved: `ExpandRespects` —
-two *reachable* productions that compare equal have pairwise equal successors although they may have inherited different
-pre-filtered rule sets (the "rule pre-filter must not lose rules" clause).  `keyEq_equivalence` discharges the other
-hypothesis (`==` of production elements is an equivalence that never identifies a value with a pattern match) from the
-generated attribute lists.  The hypothesis is decided on the real code by the sweep (independent brute-force closure over
-the *unfiltered* rule base vs the streamed set, several scorers) and for the model by the `search` correspondence.
+`search_complete`: **completeness of the concrete loop** — without depth limit and deadline, if the search ends without
+exception then every value of every reachable production that no rule reduces further compares equal (Python `==`) to a
+streamed candidate, for **every scorer** (ordering, both dedup tables and the emission gate are score dependent; the proof is
+an invariant over the worklist: successors of closed elements and table keys are value-equal to something open or closed).
+Its two ingredients about the rule base are proved, not assumed: `prefilter_adequate` — the rule pre-filter computed once per
+initial sequence keeps every rule that can fire on any descendant of that sequence (`Lemmas/FilterAdequate`: the model of
+`_seq_match` answers yes whenever a pattern matches a window of a production that `Covers` the sequence); and
+`expand_respects_eq` — two reachable productions that compare equal have pairwise equal successors although they may descend
+from different initial sequences (different pre-filtered rule sets) and carry values with different spans
+(`Lemmas/ExpandRespects`: pattern id and start offset identify a match of the match list; windows, rule results and the
+calendar check depend on the values only).  `keyEq_equivalence`: `==` of production elements is an equivalence that never
+identifies a value with a pattern match (from the generated attribute lists).  Reading of "fully reduced": the expansion of
+the production succeeds with no successor (`expandArts … = .ok []`).
 -/
 namespace QuickAdd.C15
 open QuickAdd Gen
@@ -47,90 +52,15 @@ theorem search_sound (sc : Scorer S) (ts : Ts) (o : Opts) (txt : List Nat) (fuel
 /-- `_match_rule`: an offset is yielded iff the whole pattern matches the window starting there -/
 theorem window_sound (seq : List Art) (pat : List Pred) (i : Nat) (h : i ∈ matchRule seq pat) :
     i < seq.length ∧ ((seq.drop i).take pat.length).length = pat.length ∧
-      (List.zipWith predHolds pat ((seq.drop i).take pat.length)).all id = true ∧ pat ≠ [] := by
-  unfold matchRule at h
-  split at h
-  · simp at h
-  · rename_i hne
-    simp only [List.mem_filter, List.mem_range, Bool.and_eq_true, beq_iff_eq] at h
-    exact ⟨h.1, h.2.1, h.2.2, by intro e; simp [e] at hne⟩
-
-/-- generic: a fold that appends at most one element per index only adds elements produced at those indices -/
-theorem foldOpt_sound {β γ : Type} (g : β → Except PyErr (Option γ)) :
-    ∀ (ws : List β) (acc out : List γ), foldOpt g ws acc = Except.ok out → ∀ s ∈ out, s ∈ acc ∨ ∃ i ∈ ws, g i = .ok (some s) := by
-  intro ws
-  induction ws with
-  | nil => intro acc out h s hs; simp [foldOpt] at h; subst h; exact Or.inl hs
-  | cons i is ih =>
-    intro acc out h s hs
-    simp only [foldOpt] at h
-    cases hr : g i with
-    | error e => simp [hr] at h
-    | ok r =>
-      cases r with
-      | none =>
-        simp only [hr] at h
-        rcases ih acc out h s hs with h1 | ⟨j, hj, e⟩
-        · exact Or.inl h1
-        · exact Or.inr ⟨j, List.mem_cons_of_mem _ hj, e⟩
-      | some x =>
-        simp only [hr] at h
-        rcases ih _ out h s hs with h1 | ⟨j, hj, e⟩
-        · rcases List.mem_append.mp h1 with h2 | h2
-          · exact Or.inl h2
-          · simp at h2; subst h2; exact Or.inr ⟨i, by simp, hr⟩
-        · exact Or.inr ⟨j, List.mem_cons_of_mem _ hj, e⟩
-
-theorem foldAppend_sound {β γ : Type} (g : β → Except PyErr (List γ)) :
-    ∀ (rs : List β) (acc out : List γ), foldAppend g rs acc = Except.ok out →
-      ∀ s ∈ out, s ∈ acc ∨ ∃ r ∈ rs, ∃ outs, g r = .ok outs ∧ s ∈ outs := by
-  intro rs
-  induction rs with
-  | nil => intro acc out h s hs; simp [foldAppend] at h; subst h; exact Or.inl hs
-  | cons r rs ih =>
-    intro acc out h s hs
-    simp only [foldAppend] at h
-    cases hr : g r with
-    | error e => simp [hr] at h
-    | ok outs =>
-      simp only [hr] at h
-      rcases ih _ out h s hs with h1 | ⟨r', hr', o', ho', hs'⟩
-      · rcases List.mem_append.mp h1 with h2 | h2
-        · exact Or.inl h2
-        · exact Or.inr ⟨r, by simp, outs, hr, h2⟩
-      · exact Or.inr ⟨r', List.mem_cons_of_mem _ hr', o', ho', hs'⟩
-
-/-- one application: a successful production on the window at `i`, spliced in place, trace extended by the rule's name -/
-theorem applyAt_sound (ts : Ts) (name : String) (pat : List Pred) (prod : List Art) (trace : List String) (i : Nat) (s : List Art × List String × Nat)
-    (h : applyAt ts name pat prod trace i = .ok (some s)) :
-    ∃ x, applyRule name ts ((prod.drop i).take pat.length) = .ok (some x) ∧
-      s = (prod.take i ++ x :: prod.drop (i + pat.length), trace ++ [name], coverOf (prod.take i ++ x :: prod.drop (i + pat.length))) := by
-  unfold applyAt at h
-  cases hr : applyRule name ts ((prod.drop i).take pat.length) with
-  | error e => simp [hr, bind, Except.bind] at h
-  | ok r =>
-    cases r with
-    | none => simp [hr, bind, Except.bind, pure, Except.pure] at h
-    | some x =>
-      simp only [hr, bind, Except.bind, pure, Except.pure] at h
-      simp at h
-      exact ⟨x, rfl, h.symm⟩
+      (List.zipWith predHolds pat ((seq.drop i).take pat.length)).all id = true ∧ pat ≠ [] := QuickAdd.window_sound seq pat i h
 
 /-- **every successor is a licensed derivation step**: a rule of the applicable set, a window on which all its predicates
     hold, a successful production, the value spliced in place and the trace extended by that rule's name -/
 theorem expand_sound (ts : Ts) (rules : List (String × List Pred)) (prod : List Art) (trace : List String)
     (out : List (List Art × List String × Nat)) (h : expandArts ts rules prod trace = .ok out) :
     ∀ s ∈ out, ∃ r ∈ rules, ∃ i ∈ matchRule prod r.2, ∃ x, applyRule r.1 ts ((prod.drop i).take r.2.length) = .ok (some x) ∧
-      s = (prod.take i ++ x :: prod.drop (i + r.2.length), trace ++ [r.1], coverOf (prod.take i ++ x :: prod.drop (i + r.2.length))) := by
-  intro s hs
-  have h' : foldAppend (fun r : String × List Pred => expandRule ts r.1 r.2 prod trace) rules [] = .ok out := h
-  rcases foldAppend_sound (fun r : String × List Pred => expandRule ts r.1 r.2 prod trace) rules [] out h' s hs with h1 | ⟨r, hr, outs, ho, hso⟩
-  · simp at h1
-  · have ho' : foldOpt (applyAt ts r.1 r.2 prod trace) (matchRule prod r.2) [] = .ok outs := ho
-    rcases foldOpt_sound (applyAt ts r.1 r.2 prod trace) (matchRule prod r.2) [] outs ho' s hso with h2 | ⟨i, hi, hg⟩
-    · simp at h2
-    · obtain ⟨x, hx, e⟩ := applyAt_sound ts r.1 r.2 prod trace i s hg
-      exact ⟨r, hr, i, hi, x, hx, e⟩
+      s = (prod.take i ++ x :: prod.drop (i + r.2.length), trace ++ [r.1], coverOf (prod.take i ++ x :: prod.drop (i + r.2.length))) :=
+  QuickAdd.expand_sound ts rules prod trace out h
 
 /-! ## completeness -/
 
@@ -138,20 +68,37 @@ theorem expand_sound (ts : Ts) (rules : List (String × List Pred)) (prod : List
 theorem keyEq_equivalence (sc : Scorer S) (ts : Ts) (d : Nat) (txt : List Nat) : EqvK (mkCfg sc ts d txt) :=
   ⟨C18.pyEq_refl, C18.pyEq_symm, C18.pyEq_trans, C18.pyEq_isVal⟩
 
-/-- completeness of the stream, for every scorer; hypothesis `hER` is the unproved part (see the header) -/
-theorem search_complete_partial (sc : Scorer S) (ts : Ts) (o : Opts) (txt : List Nat) (fuel : Nat)
+/-- **completeness of the stream, for every scorer** (no hypothesis left about the rule base): without depth limit and
+    deadline, if the search ends without exception, every value of every reachable production that no rule reduces further
+    compares equal (Python `==`) to a streamed candidate -/
+theorem search_complete (sc : Scorer S) (ts : Ts) (hts : ts.Valid) (o : Opts) (txt : List Nat) (fuel : Nat)
     (hd : o.depth = 0) (hdl : o.deadline = none)
-    (hER : ExpandRespects (mkCfg sc ts o.depth txt) (initialStack sc o.depth o.relMatchLenNum o.relMatchLenDen txt fuel).1)
     (hclean : (searchCore sc ts o txt fuel).1.2 = none) :
     let st := (initialStack sc o.depth o.relMatchLenNum o.relMatchLenDen txt fuel).1
-    ∀ p t rules, ReachE (mkCfg sc ts o.depth txt) st p t rules → succOf (mkCfg sc ts o.depth txt) rules p t = [] →
+    ∀ p t rules, ReachE (mkCfg sc ts o.depth txt) st p t rules → expandArts ts rules p t = .ok [] →
       ∀ x ∈ p, x.isVal = true → ∃ c ∈ (searchCore sc ts o txt fuel).1.1, x.pyEq c.res = true := by
   intro st p t rules hr hnil x hx hxv
+  have hER := expandRespects_concrete sc ts hts o.depth o.relMatchLenNum o.relMatchLenDen txt fuel o.depth
   have hexp : ∀ n, expiredAt none n = false := fun _ => rfl
   simp only [searchCore, hdl, hexp, Bool.false_eq_true, if_false, Option.map_none] at hclean ⊢
   obtain ⟨ou, hou, he⟩ := complete_stream (mkCfg sc ts o.depth txt) (by simpa [mkCfg] using hd) (keyEq_equivalence sc ts o.depth txt)
     fuel st hER _ (Prod.ext rfl hclean) p t rules hr hnil x hx hxv
   exact ⟨toCand ou, List.mem_map.mpr ⟨ou, hou, rfl⟩, he⟩
+
+/-- the rule pre-filter of `from_regex_matches` loses no rule that can ever fire on a descendant of the sequence -/
+theorem prefilter_adequate (s p : List Art) (hc : Covers s p) (r : String × List Pred) (hr : r ∈ ruleSigs) (i : Nat) (hi : i ∈ matchRule p r.2) :
+    r ∈ filterRules s := filter_keeps s p hc r hr i hi
+
+/-- two reachable productions that compare equal have pairwise equal successors (different inherited rule sets and value spans
+    notwithstanding) -/
+theorem expand_respects_eq (sc : Scorer S) (ts : Ts) (hts : ts.Valid) (depth num den : Nat) (txt : List Nat) (fuel d : Nat) :
+    ExpandRespects (mkCfg sc ts d txt) (initialStack sc depth num den txt fuel).1 :=
+  expandRespects_concrete sc ts hts depth num den txt fuel d
+
+/-- non-vacuity of `search_complete`: a concrete text on which all its hypotheses hold ('5pm', no depth limit, no deadline,
+    clean end) and the stream is not empty -/
+example : (searchCore constScorer ⟨⟨2018, 3, 7⟩, 12, 43⟩ { depth := 0 } [53, 112, 109] 200).1.2 = none ∧
+    (searchCore constScorer ⟨⟨2018, 3, 7⟩, 12, 43⟩ { depth := 0 } [53, 112, 109] 200).1.1.length > 0 := by decide +kernel
 
 /-- non-vacuity of the abstract theorem: a configuration (count-down productions over `Nat`, every element a value) that
     satisfies all hypotheses of `complete_stream`, with a clean run that streams the fully reduced production -/
@@ -177,16 +124,16 @@ theorem toy_req (p q : List Nat) : Req toyCfg p q ↔ p = q := by
 example : EqvK toyCfg ∧ ExpandRespects toyCfg toyInit ∧
     run toyCfg 10 none toyInit [] [] = ([(0, ["dec", "dec", "dec"], 0)], none) := by
   refine ⟨⟨by simp [toyCfg], by simp [toyCfg], by simp [toyCfg], by simp [toyCfg]⟩, ?_, by decide⟩
-  intro r1 p1 t1 r2 p2 t2 _ _ hreq n hn
+  intro r1 p1 t1 r2 p2 t2 s1 s2 _ _ hreq h1 h2 n hn
   have : p1 = p2 := (toy_req p1 p2).mp hreq
   subst this
-  simp only [succOf, toyCfg, List.mem_map] at hn ⊢
-  obtain ⟨a, ha, rfl⟩ := hn
+  simp only [toyCfg, Except.ok.injEq] at h1 h2
+  subst h1; subst h2
   rcases p1 with _ | ⟨k, _ | ⟨_, _⟩⟩
-  · simp at ha
+  · simp at hn
   · cases k with
-    | zero => simp at ha
-    | succ k => simp at ha; subst ha; exact ⟨[k], ⟨([k], t2 ++ ["dec"], 1), by simp, rfl⟩, (toy_req _ _).mpr rfl⟩
-  · simp at ha
+    | zero => simp at hn
+    | succ k => simp at hn; subst hn; exact ⟨([k], t2 ++ ["dec"], 1), by simp, (toy_req _ _).mpr rfl⟩
+  · simp at hn
 
 end QuickAdd.C15
